@@ -18,7 +18,8 @@ func init() {
 		"(R5) every tls.Unmarshal in the module compares the remaining bytes with 0 and the trailing-bytes outcome executes no accept-only code and returns no success (17 sites; named exceptions: the pretty-printer and the log-only validation in get-entries); "+
 		"(R6) the JSON API messages have the RFC 6962 s4 field names and Go kinds (base64 via []byte), the URL paths are the RFC's, ToSignedCertificateTimestamp / ToSignedTreeHead / DigitallySigned / SHA256Hash JSON conversions forward every field, use standard base64 and reject lengths other than 32. "+
 		"(R9, rule sets R1-R4, R6, R10 of C09) the reflect-driven codec applies widths, field order, selectors and the minlen..maxlen / maxval bounds of the tags identically when writing and reading, and the bounds gate every accepting path of both directions (an out-of-range length or enum value is an error on every path, so encoder and decoder agree on the set of values). "+
-		"NOT covered: semantics of package reflect, byte equality for concrete values and the 1/2/3-byte length boundaries at run time, panics / allocation bounds / integer conversions inside the codec (C09.R5, R7-R9), JSON encoding performed by encoding/json itself.",
+		"(R10) a Merkle tree leaf that takes its timestamp from an SCT and is afterwards serialised whole (hashed) holds that SCT's extensions in TimestampedEntry.Extensions on every path — decided for every writer of the leaf timestamp in the module, the value traced to its origin through parameters to every call site and the leaf followed through callees, wrappers (LogEntry) and results to where tls.Marshal takes it; leaves of which only members are read (SCT signature input) owe nothing. "+
+		"NOT covered: SCT timestamps that reach a leaf through an interface method result or through code outside the module; leaves serialised by anything but tls.Marshal; semantics of package reflect, byte equality for concrete values and the 1/2/3-byte length boundaries at run time, panics / allocation bounds / integer conversions inside the codec (C09.R5, R7-R9), JSON encoding performed by encoding/json itself.",
 		runC04)
 }
 
@@ -115,6 +116,7 @@ func runC04(r *Run) {
 	c04Unknown(r)
 	c04Rest(r)
 	c04JSONRules(r)
+	c04SCTLeafExtensions(r)
 
 	// the extra-data structure chosen for the backend leaf (rule set of C01.R5)
 	r.Shared("C04.R7", func() {
